@@ -313,17 +313,16 @@ def run(ctx):
         b = f.body
         sy = Sym(f)
         rem = [c for c in f.body.calls() if strip_generics(c.resolved or "").split("::")[-1] in ("remove_entry", "remove")]
-        trues, falses = [], []
-        for i, kk, s in b.stmts():
-            if s["k"] == "assign" and s["p"]["l"] == 0 and s["rv"]["k"] == "use":
-                c = s["rv"]["a"].get("const")
-                if c and "bool" in c:
-                    (trues if c["bool"] else falses).append(i)
-        ok = len(rem) == 1 and len(trues) == 1 and len(falses) >= 1
-        if ok:
-            g_true = gates(b, trues[0])
-            occ = any(lab == "Occupied" for d, lab in g_true)
-            ok = occ and b.dominates(rem[0].bb, trues[0]) and all(not any(lab == "Occupied" for d, lab in gates(b, fb)) for fb in falses)
+        from facts import PredFlow
+
+        def csw(subj, variant):
+            if sym_is_call(subj, "from_key_hashed_nocheck", "from_hash", "from_key"):
+                return {"Occupied": "P", "Vacant": "N"}.get(variant)
+            return None
+
+        pf = PredFlow(f, csw)  # P = "an entry for the key was found in the shard"
+        agrees, _d = pf.returned_bool_agrees()
+        ok = len(rem) == 1 and pf.at(rem[0].bb) == "P" and agrees
         chk.ob("C06.d", f"{f.path} [truthful result]", ok, "returns true exactly on the Occupied edge, after remove_entry" if ok else "delete does not return `true` exactly when an entry was found and removed", f.loc())
     # retain passes the predicate through
     for k, f in fam["retain"].items():
